@@ -265,7 +265,9 @@ def regions(src, atom_ids, host):
                 #     (a loop target, a branch) and is read by the statements after the region (after they rebind it)
                 if is_top:
                     cond = {n.id for st in run if hasattr(st, "body") for n in ast.walk(st) if isinstance(n, ast.Name) and isinstance(n.ctx, ast.Store)}
-                    earlier = {n.id for st in lst[:i] for n in ast.walk(st) if isinstance(n, ast.Name) and isinstance(n.ctx, ast.Store)} | {"p", "self", "cls"}
+                    # (only plain assignments count as bindings that certainly happened before the region)
+                    earlier = {n.id for st in lst[:i] if isinstance(st, (ast.Assign, ast.AugAssign)) for n in ast.walk(st)
+                               if isinstance(n, ast.Name) and isinstance(n.ctx, ast.Store)} | {"p", "self", "cls"}
                     later = {n.id for st in lst[j + 1:] for n in ast.walk(st) if isinstance(n, ast.Name) and isinstance(n.ctx, ast.Load)}
                     if (cond - definite - earlier) & later:
                         feats.append("region:binds-a-new-name-only-inside-a-compound-statement-and-later-statements-rebind-and-read-it")
